@@ -1,7 +1,9 @@
 #!/bin/bash
 # usage: seed_try.sh <worktree> <n> <seed-id> <prop> [more checks...]
 # confirms a seeded change in its scratch worktree (demo passes without / fails with, baseline tests pass),
-# stores it under /verif/seeded/<seed-id>/, then applies it to /repo, runs the checks, and reverts.
+# stores it under /verif/seeded/<seed-id>/, then runs the checks against the patched tree and reverts.
+# Default: the patched tree is the scratch worktree itself (PYTHONPATH / VERIF_REPO / VERIF_OUT point there, so
+# several seeds can run in parallel and /verif/evidence is not overwritten).  SEED_IN_REPO=1: apply to /repo instead.
 WT=$1; N=$2; SID=$3; shift 3
 D=$WT/seed_out/$N
 cd $WT && git checkout -q -- . 
@@ -9,18 +11,24 @@ PYTHONPATH=$WT /venv/bin/python $D/demo.py >/dev/null 2>&1; A=$?
 git apply $D/patch.diff || { echo "PATCH DOES NOT APPLY"; exit 3; }
 PYTHONPATH=$WT /venv/bin/python $D/demo.py >/dev/null 2>&1; B=$?
 T=$(PYTHONPATH=$WT /venv/bin/python -m pytest -q -p no:cacheprovider --timeout=900 --continue-on-collection-errors 2>&1 | tail -1)
-git checkout -q -- .
 echo "demo clean=$A patched=$B tests: $T"
 mkdir -p /verif/seeded/$SID && cp $D/patch.diff $D/demo.py $D/note.txt /verif/seeded/$SID/ 2>/dev/null
-cd /repo && git apply $D/patch.diff || { echo "PATCH DOES NOT APPLY TO /repo"; exit 3; }
+if [ -n "$SEED_IN_REPO" ]; then
+  git checkout -q -- .
+  cd /repo && git apply $D/patch.diff || { echo "PATCH DOES NOT APPLY TO /repo"; exit 3; }
+  MODE="git -C /repo apply"
+else
+  export PYTHONPATH=$WT VERIF_REPO=$WT VERIF_OUT=$(mktemp -d /tmp/seedout.XXXXXX)
+  MODE="patched scratch worktree via PYTHONPATH"
+fi
 cd /verif
 RES=""
 for id in "$@"; do
   OUT=$(bin/check $id 2>&1); RC=$?
   NV=$(echo "$OUT" | grep -c "^VIOLATION")
-  FIRST=$(echo "$OUT" | grep -A1 "^VIOLATION" | sed -n 2p | cut -c1-220)
+  FIRST=$(echo "$OUT" | grep -B1 "^VIOLATION" | head -1 | cut -c1-220)
   echo "  $id: exit=$RC violations=$NV $FIRST"
   RES="$RES $id:exit$RC:viol$NV"
 done
-git -C /repo checkout -q -- .
-echo "{\"demo_clean_exit\": $A, \"demo_patched_exit\": $B, \"tests\": \"$T\", \"checks\": \"$RES\"}" > /verif/seeded/$SID/run.json
+if [ -n "$SEED_IN_REPO" ]; then git -C /repo checkout -q -- .; else git -C $WT checkout -q -- .; rm -rf "$VERIF_OUT"; fi
+echo "{\"demo_clean_exit\": $A, \"demo_patched_exit\": $B, \"tests\": \"$T\", \"mode\": \"$MODE\", \"checks\": \"$RES\"}" > /verif/seeded/$SID/run.json
